@@ -740,6 +740,24 @@ func checkUserLevels(senderLevel int64, senderID spec.SenderID, oldPowerLevels, 
 		}
 	}
 
+	// The entry of another user whose level is equal to or above the sender's may
+	// not be removed, also where users_default makes up for it. With the entry
+	// gone the user is at the mercy of users_default, which may be lowered by
+	// anybody who is at that level: two moderators, one drops the other's entry
+	// while raising the default to their level, then lowers the default again.
+	for userSenderID, oldLevel := range oldPowerLevels.Users {
+		if spec.SenderID(userSenderID) == senderID {
+			continue
+		}
+		if _, kept := newPowerLevels.Users[userSenderID]; !kept && senderLevel <= oldLevel {
+			return errorf(
+				"sender %q with level %d is not allowed to remove the level of user %q"+
+					" because it is equal to or above the level of the sender",
+				senderID, senderLevel, userSenderID,
+			)
+		}
+	}
+
 	// Check each of the levels in the list.
 	for userSenderID, level := range userLevelChecks {
 		// Check if the level is being changed.
